@@ -11,7 +11,16 @@
 //	        errip=<ip> errhost=<name> dns=<ip:port>        →  ok <hex of the log text>
 //
 // client paths: socks-eof socks-operr args-fail dial-operr dial-dns reply-fail relay-eof relay-operr
+//
+//	and, with the REAL transports' client factories (the SOCKS target is really dialled:
+//	choose a loopback address nobody listens on): real-obfs2-dial real-obfs3-dial
+//	real-scramblesuit-dial real-obfs4-dial real-meek_lite-dial
+//
 // server paths: wrap-operr wrap-plain relay-eof relay-operr
+//
+//	and, with the REAL obfs4 server factory: real-obfs4-garbage real-obfs4-truncated
+//	real-obfs4-replay (a genuine client handshake from peer2= is accepted and relayed, then the
+//	byte-identical handshake is replayed from peer=)
 package main
 
 import (
@@ -30,6 +39,7 @@ import (
 	pt "gitlab.torproject.org/tpo/anti-censorship/pluggable-transports/goptlib"
 
 	"gitlab.com/yawning/obfs4.git/common/log"
+	"gitlab.com/yawning/obfs4.git/transports"
 	"gitlab.com/yawning/obfs4.git/transports/base"
 )
 
@@ -192,6 +202,115 @@ func verifOrHoldPort() *net.TCPAddr {
 	return verifOrHoldLn.Addr().(*net.TCPAddr)
 }
 
+// verifSocksAuthRequest: the SOCKS5 conversation of a PT client: username/password
+// authentication carrying the transport arguments, then CONNECT target.
+func verifSocksAuthRequest(target, args string) ([][]byte, error) {
+	plain, err := verifSocksRequest(target)
+	if err != nil || len(args) == 0 || len(args) > 255 {
+		return nil, errors.New("bad socks arguments")
+	}
+	auth := append([]byte{1, byte(len(args))}, args...)
+	auth = append(auth, 1, 0)
+	return [][]byte{{5, 1, 2}, auth, plain[1]}, nil
+}
+
+var (
+	verifRealDir string
+	verifObfs4SF base.ServerFactory
+)
+
+func verifRealStateDir() (string, error) {
+	if verifRealDir == "" {
+		d, err := os.MkdirTemp("", "o4pstate")
+		if err != nil {
+			return "", err
+		}
+		verifRealDir = d
+		if err := transports.Init(); err != nil {
+			return "", err
+		}
+	}
+	return verifRealDir, nil
+}
+
+func verifObfs4Server() (base.ServerFactory, error) {
+	if verifObfs4SF != nil {
+		return verifObfs4SF, nil
+	}
+	dir, err := verifRealStateDir()
+	if err != nil {
+		return nil, err
+	}
+	sf, err := transports.Get("obfs4").ServerFactory(dir, &pt.Args{})
+	if err != nil {
+		return nil, err
+	}
+	verifObfs4SF = sf
+	return sf, nil
+}
+
+// verifTapConn records what is written to it; verifAddrConn overrides the addresses.
+type verifTapConn struct {
+	net.Conn
+	mu  sync.Mutex
+	buf bytes.Buffer
+}
+
+func (c *verifTapConn) Write(p []byte) (int, error) {
+	c.mu.Lock()
+	c.buf.Write(p)
+	c.mu.Unlock()
+	return c.Conn.Write(p)
+}
+
+type verifAddrConn struct {
+	net.Conn
+	laddr, raddr net.Addr
+}
+
+func (c *verifAddrConn) LocalAddr() net.Addr  { return c.laddr }
+func (c *verifAddrConn) RemoteAddr() net.Addr { return c.raddr }
+
+// verifObfs4Handshake: a genuine obfs4 client handshakes with serverHandler over an in-memory
+// pipe (the server sees the connection coming from `peer`), sends a little data and closes;
+// returns the bytes of the client's handshake message.
+func verifObfs4Handshake(sf base.ServerFactory, local, peer net.Addr, info *pt.ServerInfo) ([]byte, error) {
+	dir, _ := verifRealStateDir()
+	cf, err := transports.Get("obfs4").ClientFactory(dir)
+	if err != nil {
+		return nil, err
+	}
+	cargs, err := cf.ParseArgs(sf.Args())
+	if err != nil {
+		return nil, err
+	}
+	c1, c2 := net.Pipe()
+	tap := &verifTapConn{Conn: c1}
+	srvDone := make(chan struct{})
+	go func() {
+		defer close(srvDone)
+		serverHandler(sf, &verifAddrConn{Conn: c2, laddr: local, raddr: peer}, info)
+	}()
+	conn, err := cf.Dial("tcp", "obfs4.invalid:1", func(string, string) (net.Conn, error) { return tap, nil }, cargs)
+	if err != nil {
+		c1.Close()
+		<-srvDone
+		return nil, err
+	}
+	tap.mu.Lock()
+	hs := append([]byte(nil), tap.buf.Bytes()...)
+	tap.mu.Unlock()
+	_, _ = conn.Write([]byte("hello bridge"))
+	time.Sleep(20 * time.Millisecond)
+	conn.Close()
+	select {
+	case <-srvDone:
+	case <-time.After(10 * time.Second):
+		return nil, errors.New("serverHandler did not return after the client closed")
+	}
+	return hs, nil
+}
+
 func verifLogRun(w []string) string {
 	if len(w) < 4 {
 		return "bad-op"
@@ -287,12 +406,51 @@ func verifLogRun(w []string) string {
 				&net.OpError{Op: "read", Net: "tcp", Source: localTCP, Addr: &net.TCPAddr{IP: errIP, Port: 443}, Err: os.NewSyscallError("read", syscall.ECONNRESET)},
 				[]byte("payload"))
 		default:
-			return "bad-op"
+			if !strings.HasPrefix(path, "real-") || !strings.HasSuffix(path, "-dial") {
+				return "bad-op"
+			}
+			name := strings.TrimSuffix(strings.TrimPrefix(path, "real-"), "-dial")
+			dir, err := verifRealStateDir()
+			if err != nil {
+				return "error " + strings.ReplaceAll(err.Error(), " ", "_")
+			}
+			t := transports.Get(name)
+			if t == nil {
+				return "bad-op"
+			}
+			rcf, err := t.ClientFactory(dir)
+			if err != nil {
+				return "error " + strings.ReplaceAll(err.Error(), " ", "_")
+			}
+			var targs string
+			switch name {
+			case "obfs4":
+				sf, err := verifObfs4Server()
+				if err != nil {
+					return "error " + strings.ReplaceAll(err.Error(), " ", "_")
+				}
+				cert, _ := sf.Args().Get("cert")
+				targs = "cert=" + cert + ";iat-mode=0"
+			case "scramblesuit":
+				targs = "password=ABCDEFGHIJKLMNOPQRSTUVWXYZ234567"
+			case "meek_lite":
+				targs = "url=http://" + kv["target"] + "/"
+			default:
+				targs = "unused=1"
+			}
+			asocks, err := verifSocksAuthRequest(kv["target"], targs)
+			if err != nil {
+				return "bad-op"
+			}
+			rconn := verifNewLogConn(local, peer, nil, asocks...)
+			run = func() { clientHandler(rcf, rconn, nil) }
 		}
 		if path == "relay-eof" {
 			f.remote.(*verifLogConn).endErr = verifEOF()
 		}
-		run = func() { clientHandler(f, conn, nil) }
+		if run == nil {
+			run = func() { clientHandler(f, conn, nil) }
+		}
 	case "server":
 		f := &verifLogFactory{}
 		conn := verifNewLogConn(local, peer, nil)
@@ -306,10 +464,37 @@ func verifLogRun(w []string) string {
 		case "relay-operr":
 			f.remote = verifNewLogConn(local, peer, readErr, []byte("payload"))
 		default:
-			return "bad-op"
+			if !strings.HasPrefix(path, "real-obfs4-") {
+				return "bad-op"
+			}
 		}
 		info := &pt.ServerInfo{OrAddr: verifOrHoldPort()}
 		run = func() { serverHandler(f, conn, info) }
+		if strings.HasPrefix(path, "real-obfs4-") {
+			sf, err := verifObfs4Server()
+			if err != nil {
+				return "error " + strings.ReplaceAll(err.Error(), " ", "_")
+			}
+			var wire []byte
+			switch path {
+			case "real-obfs4-garbage":
+				wire = bytes.Repeat([]byte("not an obfs4 handshake "), 40)
+			case "real-obfs4-truncated", "real-obfs4-replay":
+				peer2 := verifStrAddr{kv["peer2"]}
+				hs, err := verifObfs4Handshake(sf, local, peer2, info)
+				if err != nil {
+					return "error " + strings.ReplaceAll(err.Error(), " ", "_")
+				}
+				wire = hs
+				if path == "real-obfs4-truncated" {
+					wire = hs[:len(hs)/2]
+				}
+			default:
+				return "bad-op"
+			}
+			rconn := verifNewLogConn(local, peer, verifEOF(), wire)
+			run = func() { serverHandler(sf, rconn, info) }
+		}
 	default:
 		return "bad-op"
 	}
